@@ -312,6 +312,9 @@ def run(P, R, tier):
     for nm_ in ['_compute_latent_x_per_class', '_compute_fn_x_ih', '_compute_fn_z_i', '_compute_fn_y_i', '_compute_fn_x', 'compute_latent_x', 'update_z', 'update_y', 'estimate_x', 'estimate_ux']:
         if P.func('factor_analysis:FactorAnalysisBase.' + nm_, required=False) is not None:
             _prd.check_return_deps(P, R, 'factor_analysis:FactorAnalysisBase.' + nm_)
+    from ..engines import proto as _pst9
+    for f9_ in P.all_funcs(['factor_analysis']):
+        _pst9.check_standins(P, R, f9_.key)
 
 
 EXPLANATION += ' Also: (ACC.sum) accumulators are summed over classes / sessions; (POL.acc-placement) every factor of A1 / A2 multiplies; (OPT); (IDX.class-select); (COVER.reduce_iadd / COVER.pairs) per-class accumulators are folded whole; (DTYPE.raw).'
